@@ -108,6 +108,7 @@ class Registry:
         self.globals: dict[str, object] = {}
         self.regions: dict[tuple, dict] = {}
         self.inline_ctor: set[str] = set()
+        self.flags: dict[str, bool] = {}     # switches for known-finding exclusions (see driver)
         self.kind_hints: dict = {}
 
     # the functions below are what spec files use -------------------------------------
